@@ -395,4 +395,75 @@ theorem globalSlice_failed_marked (i : GSliceInput) :
   rw [lookup_setAll]
   exact if_pos hp
 
+/-! ### a listing that did not fail is complete -/
+
+theorem want_of_match {f m v w : Nat} (hm : m = v ||| w) (hv : v ≠ 0) (h : matchF v f = true) : matchF f m = true := by
+  cases hx : matchF f m with
+  | true => rfl
+  | false => rw [not_match_of_mask hm hv hx] at h; exact absurd h (by decide)
+
+theorem filter_some_of {s f : Nat} (h : matchF s f = true) : (some s : Option Nat).filter (fun x => matchF x f) = some s := by
+  simp [Option.filter, h]
+
+theorem listEntryF_complete (i : FInput) (f : Nat) (r : FRec) (h : Ipfs) (hc : r.ans = wellBehaved r.pin h)
+    (hf : listFailed i f = false) (hs : sFault i r = false)
+    (hne : statusF i r ≠ stUnpinned) (herr : isErr (statusF i r) = false) (hm : matchF (statusF i r) f = true) :
+    listEntryF i f r = some (statusF i r) := by
+  unfold sFault at hs
+  simp only [Bool.or_eq_false_iff] at hs
+  obtain ⟨⟨hse, hge⟩, hce⟩ := hs
+  unfold listEntryF
+  simp only [hf, Bool.false_eq_true, ↓reduceIte]
+  unfold statusF at hne herr hm ⊢
+  cases ho : opEntryO r.op with
+  | some s =>
+    rw [ho] at hm
+    exact filter_some_of hm
+  | none =>
+    rw [ho] at hne herr hm
+    simp only [hse, hge, hce, Bool.false_eq_true, ↓reduceIte] at hne herr hm ⊢
+    unfold localEntryF
+    cases hp : r.pin with
+    | none => rw [hp] at hne; exact absurd rfl hne
+    | some p =>
+      rw [hp] at hne herr hm
+      simp only at hne herr hm ⊢
+      by_cases hmeta : p.isMeta = true
+      · simp only [hmeta, ↓reduceIte] at hm ⊢
+        have hw : wantState f = true := want_of_match state_mask_sharded (by decide) hm
+        have hm' : matchF f stSharded = true := by rw [matchF_comm]; exact hm
+        simp only [hw, hm', Bool.not_true, Bool.false_eq_true, ↓reduceIte, Bool.or_self]
+        exact filter_some_of hm
+      · simp only [hmeta, Bool.false_eq_true, ↓reduceIte] at hne herr hm ⊢
+        by_cases hr : p.isRemote i.self = true
+        · simp only [hr, ↓reduceIte] at hm ⊢
+          have hw : wantState f = true := want_of_match state_mask_remote (by decide) hm
+          have hm' : matchF f stRemote = true := by rw [matchF_comm]; exact hm
+          simp only [hw, hm', Bool.not_true, Bool.false_eq_true, ↓reduceIte, Bool.or_self]
+          exact filter_some_of hm
+        · simp only [hr, Bool.false_eq_true, ↓reduceIte] at hne herr hm ⊢
+          have e1 : r.ans.lsCid = pinLsCid p h := by rw [hc, hp]; rfl
+          have e2 : r.ans.lsD = pinLs true h := by rw [hc]; rfl
+          have e3 : r.ans.lsR = pinLs false h := by rw [hc]; rfl
+          rw [e1] at hne herr hm ⊢
+          rw [e2, e3]
+          -- the answer must be a pinned one: every other answer gives pin_error
+          have hpinned : (if (ipfsToTracker (pinLsCid p h) == stUnpinned) = true then stPinError
+              else ipfsToTracker (pinLsCid p h)) = stPinned ∧
+              (if p.direct = true then pinLs true h else pinLs false h).map ipfsToTracker = some stPinned := by
+            revert herr
+            cases h <;> cases hd : p.direct <;> simp [pinLsCid, pinLs, hd] <;> decide
+          rw [hpinned.1] at hm ⊢
+          have hw : wantState f = true := want_of_match state_mask_pinned (by decide) hm
+          have hwi : wantIpfs f = true := want_of_match ipfs_mask_pinned (by decide) hm
+          simp only [hw, hwi, Bool.not_true, Bool.false_eq_true, ↓reduceIte]
+          have h2 := hpinned.2
+          cases hl : (if p.direct = true then pinLs true h else pinLs false h) with
+          | none => rw [hl] at h2; exact absurd h2 (by simp)
+          | some s =>
+            rw [hl] at h2
+            simp only [Option.map_some, Option.some.injEq] at h2
+            simp only [h2]
+            exact filter_some_of hm
+
 end CV.C06
